@@ -102,9 +102,11 @@ def check_initial_tags(root, memo, acc, witness):
       if ts:
         exp.setdefault(gen.normalize_key(n.fn, k) if isinstance(k, int) else k, set()).update(ts)
     for k, c in list(n.kw.items()) + list(enumerate(n.pos)):
-      if isinstance(c, gen.B) and c.btype == 'TaggedValue':
-        kk = gen.normalize_key(n.fn, k) if isinstance(k, int) else k
+      kk = gen.normalize_key(n.fn, k) if isinstance(k, int) else k
+      while isinstance(c, gen.B) and c.btype == 'TaggedValue':
+        # (a TaggedValue whose value is again a TaggedValue is unwrapped level by level)
         exp.setdefault(kk, set()).update(c.tags.get('value', ()))
+        c = c.kw.get('value')
     got = {k: set(v) for k, v in b.__argument_tags__.items() if v}
     acc.obs('initial_tag_sets_checked')
     if got != exp:
